@@ -778,6 +778,47 @@ func init() {
 			emit("accept-var", c20VarReq(v), "ok")
 		}
 		stats["exported-variable-not-physical(skipped)"] = nonPhys
+		// ---- 9a. indices that FOLD onto a real register when the index is narrowed: for every real index k of every kind the
+		// indices k+256, k+512, k+65280, and 255, 256, 65535, each with every spec, through Family.Lookup, LookupPhysical,
+		// LookupID and Allocation.LookupRegister (an entry naming such an id): no register has such an index
+		{
+			realIdx := map[reg.Kind]map[int]bool{}
+			for _, p := range all {
+				if realIdx[p.Kind()] == nil {
+					realIdx[p.Kind()] = map[int]bool{}
+				}
+				realIdx[p.Kind()][int(p.PhysicalIndex())] = true
+			}
+			for _, fam := range reg.Families {
+				k := fam.Kind
+				idxs := []int{255, 256, 65535}
+				for i := 0; i < 256; i++ {
+					if realIdx[k][i] {
+						idxs = append(idxs, i+256, i+512, i+65280)
+					}
+				}
+				for _, idx := range idxs {
+					folds := idx >= 256 && realIdx[k][idx%256]
+					for _, sp := range specs {
+						req := fmt.Sprintf("lookupphys %d %d %d", uint8(k), idx, uint16(sp))
+						emit("lookupphys", req, c20LookupResp(reg.LookupPhysical(k, reg.Index(idx), sp)))
+						emit("lookupphys", req, c20LookupResp(fam.Lookup(reg.Index(idx), sp)))
+						id := c20ID(false, int(k), idx)
+						emit("lookupid", fmt.Sprintf("lookupid %d %d", uint32(id), uint16(sp)), c20LookupResp(reg.LookupID(id, sp)))
+						if folds {
+							stats["lookup:index-folds-to-real-register-mod-256"] += 3
+						}
+					}
+					for _, sp := range c20AllocnSpecs[int(k)] {
+						v := reg.NewVirtual(3, k, sp)
+						c20AllocnEmit(emit, v, []c20Pair{{v.ID(), c20ID(false, int(k), idx)}}, nil)
+						if folds {
+							stats["lookup:index-folds-to-real-register-mod-256"]++
+						}
+					}
+				}
+			}
+		}
 		// ---- 9b. reg.Allocation on partial allocations (c20allocn.go)
 		c20AllocnGenerate(r, *f.n/4, all, emit, stats)
 		// ---- 10 + 11. LAST: the process is used.  11 (c20proc.go): compiles, allocators, caller-mutated accessor results, … with
